@@ -11,7 +11,7 @@
       3 inconsistent AI-client configuration, 2 report not writable, 0 otherwise —
     and a report file exists exactly when a run with --output completed (so a non-zero status never comes with a report).
 
-    What is proved.  The space of worlds is finite (24576) and enumerated completely ([all_worlds_complete]); for ANY value
+    What is proved.  The space of worlds is finite (49152) and enumerated completely ([all_worlds_complete]); for ANY value
     of the generated tables each statement below is either the universal law or a concrete counterexample world
     (the first one of a complete sweep) — the kernel accepts the instance at the current table values.
     [C20_exit_table] is restricted to [in_scope]: outside are the two input classes left as known findings
@@ -33,18 +33,18 @@
     whether an early-exit option is met before or after an erroneous one on the command line (the harness puts it first). *)
 From CM Require Import Model.Exit Spec.ExitSpec Proofs.ExitFacts Generated.Tables.
 
-Definition C20_exit_statement chain used code groups validated : Prop := exit_table_statement (mkT chain used code groups validated).
-Theorem C20_exit_table : C20_exit_statement exit_chain write_report_status_used argparse_error_code exit_checked_groups max_workers_validated.
+Definition C20_exit_statement chain used code groups validated filtered : Prop := exit_table_statement (mkT chain used code groups validated filtered).
+Theorem C20_exit_table : C20_exit_statement exit_chain write_report_status_used argparse_error_code exit_checked_groups max_workers_validated semgrep_targets_filtered.
 Proof. exact (exit_table_all _). Qed.
 Print Assumptions C20_exit_table.
 
-Definition C20_report_statement chain used code groups validated : Prop := nonzero_no_report_statement (mkT chain used code groups validated).
-Theorem C20_nonzero_no_report : C20_report_statement exit_chain write_report_status_used argparse_error_code exit_checked_groups max_workers_validated.
+Definition C20_report_statement chain used code groups validated filtered : Prop := nonzero_no_report_statement (mkT chain used code groups validated filtered).
+Theorem C20_nonzero_no_report : C20_report_statement exit_chain write_report_status_used argparse_error_code exit_checked_groups max_workers_validated semgrep_targets_filtered.
 Proof. exact (nonzero_no_report_all _). Qed.
 Print Assumptions C20_nonzero_no_report.
 
-Definition C20_crash_statement chain used code groups validated : Prop := crash_only_statement (mkT chain used code groups validated).
-Theorem C20_crash_only : C20_crash_statement exit_chain write_report_status_used argparse_error_code exit_checked_groups max_workers_validated.
+Definition C20_crash_statement chain used code groups validated filtered : Prop := crash_only_statement (mkT chain used code groups validated filtered).
+Theorem C20_crash_only : C20_crash_statement exit_chain write_report_status_used argparse_error_code exit_checked_groups max_workers_validated semgrep_targets_filtered.
 Proof. exact (crash_only_all _). Qed.
 Print Assumptions C20_crash_only.
 
@@ -54,33 +54,41 @@ Proof. exact crash_inputs. Qed.
 Print Assumptions C20_crash_refuted.
 
 (** the defects one by one, independent of the other table values *)
-Theorem C20_refuted_unwritable : forall chain code groups validated r,
-  run_exit (mkT chain false code groups validated) w_unwritable <> Exit (documented w_unwritable) r.
+Theorem C20_refuted_unwritable : forall chain code groups validated filtered r,
+  run_exit (mkT chain false code groups validated filtered) w_unwritable <> Exit (documented w_unwritable) r.
 Proof. exact unwritable_dropped. Qed.
 Print Assumptions C20_refuted_unwritable.
 
-Theorem C20_refuted_contrast_unchecked : forall chain used code groups validated,
+Theorem C20_refuted_contrast_unchecked : forall chain used code groups validated filtered,
   existsb (group_eqb GrContrast) groups = false -> forall r,
-  run_exit (mkT chain used code groups validated) w_contrast_missing <> Exit (documented w_contrast_missing) r.
+  run_exit (mkT chain used code groups validated filtered) w_contrast_missing <> Exit (documented w_contrast_missing) r.
 Proof. exact contrast_unchecked. Qed.
 Print Assumptions C20_refuted_contrast_unchecked.
 
-Theorem C20_refuted_nonpositive_workers : forall chain used code groups,
-  run_exit (mkT chain used code groups false) w_workers = Crash /\ documented w_workers = 3%Z.
+Theorem C20_refuted_nonpositive_workers : forall chain used code groups filtered,
+  run_exit (mkT chain used code groups false filtered) w_workers = Crash /\ documented w_workers = 3%Z.
 Proof. intros. split; [apply workers_unvalidated | reflexivity]. Qed.
 Print Assumptions C20_refuted_nonpositive_workers.
 
 (** pinned form, write failing half-way: status 0 although only a truncated file exists *)
-Theorem C20_refuted_partial_report : forall chain code groups validated,
+Theorem C20_refuted_partial_report : forall chain code groups validated filtered,
   chain_canonical chain = true ->
-  run_exit (mkT chain false code groups validated) w_partial = Exit 0 RPartial /\ documented w_partial = 2%Z.
+  run_exit (mkT chain false code groups validated filtered) w_partial = Exit 0 RPartial /\ documented w_partial = 2%Z.
 Proof. intros. split; [now apply partial_dropped | reflexivity]. Qed.
 Print Assumptions C20_refuted_partial_report.
 
-(** the repaired tables (chain of HEAD + both proposed fixes): the law holds of every world in scope *)
+(** a file without the owner-read bit in the target tree, a semgrep-detected codemod selected: `semgrep scan` exits 2 on
+    the explicit target, semgrep.run re-raises, the run ends with a traceback and status 1 although nothing the caller
+    asked for is wrong (documented: 0, the file is merely not processed) *)
+Theorem C20_refuted_unreadable_target : forall chain used code groups validated,
+  run_exit (mkT chain used code groups validated false) w_unreadable = Crash /\ documented w_unreadable = 0%Z /\ in_scope w_unreadable = true.
+Proof. intros. split; [apply unreadable_unfiltered | split; reflexivity]. Qed.
+Print Assumptions C20_refuted_unreadable_target.
+
+(** the repaired tables (chain of HEAD + the proposed semgrep target filter): the law holds of every world in scope *)
 Definition repaired_tables : exit_tables :=
   mkT [(GDirMissing, 1%Z); (GSarifError, 1%Z); (GResultFileMissing, 1%Z); (GAIMisconfigured, 3%Z); (GReportWrite, 2%Z)]
-      true 3%Z [GrSonarIssues; GrSonarHotspots; GrDefectDojo; GrContrast] true.
+      true 3%Z [GrSonarIssues; GrSonarHotspots; GrDefectDojo; GrContrast] true true.
 Theorem C20_repaired_exit_table : forall w, in_scope w = true -> conforms w (run_exit repaired_tables w).
 Proof.
   assert (E : exit_counterexamples repaired_tables = []) by (vm_compute; reflexivity).
@@ -120,5 +128,6 @@ Example C20_example_statuses :
   run_exit repaired_tables w_unwritable = Exit 2 RNone /\
   run_exit repaired_tables w_partial = Exit 2 RPartial /\
   run_exit repaired_tables w_contrast_missing = Exit 1 RNone /\
-  run_exit repaired_tables w_workers = Exit 3 RNone.
+  run_exit repaired_tables w_workers = Exit 3 RNone /\
+  run_exit repaired_tables w_unreadable = Exit 0 RFull.
 Proof. vm_compute. repeat split; reflexivity. Qed.
